@@ -3,7 +3,9 @@
 package c09
 
 import (
+	"bytes"
 	"fmt"
+	"slices"
 	"strings"
 
 	"github.com/c2FmZQ/ech"
@@ -23,8 +25,11 @@ type kcase struct {
 	Target string `json:"hello_encrypted_to"` // T (held when listed) or U (never held)
 }
 
+// the target's public name has upper-case letters (crypto/tls sends it verbatim): comparisons are on the bytes
+const targetPublicName = "Public.Example"
+
 func spec(key echx.KeyPair, aead uint16, share int) echx.Spec {
-	outer, idx := echx.StdOuter("public.example", tlsref.DetBytes("sid", 32), 99)
+	outer, idx := echx.StdOuter(targetPublicName, tlsref.DetBytes("sid", 32), 99)
 	for i, e := range outer.Exts {
 		if e.Type == tlsref.ExtKeyShare {
 			outer.Exts[i] = tlsref.KeyShare(share)
@@ -41,14 +46,38 @@ func spec(key echx.KeyPair, aead uint16, share int) echx.Spec {
 }
 
 // run returns the observable outcome of one configuration.
-func run(keys []ech.Key, target echx.KeyPair, aead uint16, retry bool) (outcome string, panicked any) {
-	return runSplit(keys, target, aead, retry, -1)
+func run(keys []ech.Key, target echx.KeyPair, aead uint16, retry bool, variant string) (outcome string, panicked any) {
+	return runSplit(keys, target, aead, retry, -1, variant)
 }
 
+// variants of the hello: "" (conforming), "sni-of-another-key" (sealed consistently, but the outer server name is the public
+// name of keys D/E, not the target's: never acceptable, whatever other keys the server holds), "retry-seq2" (the retried
+// hello is sealed at sequence number 2 instead of 1: never acceptable, however often the target key is listed)
+const otherPublicName = "other-public.example"
+
 // runSplit hands the key list over in two WithKeys options split at index split (-1: a single option).
-func runSplit(keys []ech.Key, target echx.KeyPair, aead uint16, retry bool, split int) (outcome string, panicked any) {
+func runSplit(keys []ech.Key, target echx.KeyPair, aead uint16, retry bool, split int, variant string) (outcome string, panicked any) {
 	s1 := spec(target, aead, 32)
+	if variant == "sni-of-another-key" {
+		for i, e := range s1.Outer.Exts {
+			if e.Type == tlsref.ExtSNI {
+				s1.Outer.Exts[i] = tlsref.SNI(otherPublicName)
+			}
+		}
+	}
 	b1 := s1.Build()
+	// the keys are the caller's memory: configs and private keys must come back bit for bit
+	snapshot := make([]ech.Key, len(keys))
+	for i, k := range keys {
+		snapshot[i] = ech.Key{Config: slices.Clone(k.Config), PrivateKey: slices.Clone(k.PrivateKey), SendAsRetry: k.SendAsRetry}
+	}
+	defer func() {
+		for i, k := range keys {
+			if !bytes.Equal(k.Config, snapshot[i].Config) || !bytes.Equal(k.PrivateKey, snapshot[i].PrivateKey) {
+				outcome = fmt.Sprintf("CALLER-KEY-BYTES-MODIFIED key %d config %x -> %x", i, snapshot[i].Config, k.Config)
+			}
+		}
+	}()
 	sess, err, p := echx.OpenSessionSplit(b1.Outer.Record(), keys, split)
 	if p != nil {
 		return "", p
@@ -70,6 +99,9 @@ func runSplit(keys []ech.Key, target echx.KeyPair, aead uint16, retry bool, spli
 	if _, err, p := sess.BackendSend(echx.HRRRecord(b1.Outer.SessionID)); p != nil || err != nil {
 		return out + fmt.Sprintf(" hrr-write-error=%v", err), p
 	}
+	if variant == "retry-seq2" {
+		b1.Sealer.Ctx.Seq = 2
+	}
 	b2 := spec(target, aead, 65).BuildWith(b1.Sealer, false)
 	second, rerr, p := sess.ClientSend(b2.Outer.Record())
 	if p != nil {
@@ -82,8 +114,15 @@ func runSplit(keys []ech.Key, target echx.KeyPair, aead uint16, retry bool, spli
 	return out + fmt.Sprintf(" second=%s err=%s clientout=%x", sec, echx.ErrClass(rerr), sess.T.OutBytes()), nil
 }
 
+func variantOf(target string) string {
+	if _, v, ok := strings.Cut(target, ":"); ok {
+		return v
+	}
+	return ""
+}
+
 func Run(r *ev.Run) {
-	r.Rule("E1 exhaustive, differential: all ordered key lists of length 0..4 (with repetition) over the pool {T target (id 42), A other key same id same suites, B other key same id but suite list lacking the client's AEAD, C other id, D other id and other public name, E other key same id other public name, S T's own key pair in a second config with the same id and another public name}; T's config carries maximum_name_length 200 and a non-mandatory extension (not what the library's encoder would write) x 3 AEADs x {first hello, retried hello after HelloRetryRequest} x hello encrypted to {T, a key U the server never holds}; outcome(list) must equal outcome([T]) when T is in the list and outcome([]) otherwise; lists of 2-3 keys are also handed over as two WithKeys options at every split point, as sub-slices of one caller-owned array that must come back unmodified. distinct = distinct (list, aead, retry, target)")
+	r.Rule("E1 exhaustive, differential: all ordered key lists of length 0..4 (with repetition) over the pool {T target (id 42), A other key same id same suites, B other key same id but suite list lacking the client's AEAD, C other id, D other id and other public name, E other key same id other public name, S T's own key pair in a second config with the same id and another public name}; T's config carries maximum_name_length 200 and a non-mandatory extension (not what the library's encoder would write) x 3 AEADs x {first hello, retried hello after HelloRetryRequest} x hello {encrypted to T, to a key U the server never holds, to T but with the outer server name of keys D/E, to T with the retried hello sealed at sequence number 2}; outcome(list) must equal outcome([T]) when T is in the list and outcome([]) otherwise; lists of 2-3 keys are also handed over as two WithKeys options at every split point, as sub-slices of one caller-owned array that must come back unmodified. distinct = distinct (list, aead, retry, target)")
 	r.Assume("reference sender validated against crypto/tls (C03)", "all keys in a list are valid X25519 keys with well-formed configs")
 	pool := "TABCDES"
 	var lists []string
@@ -107,8 +146,14 @@ func Run(r *ev.Run) {
 	var cases []kcase
 	for _, aead := range []uint16{1, 2, 3} {
 		for _, retry := range []bool{false, true} {
-			for _, tgt := range []string{"T", "U"} {
+			for _, tgt := range []string{"T", "U", "T:sni-of-another-key", "T:retry-seq2"} {
+				if tgt == "T:retry-seq2" && !retry {
+					continue
+				}
 				for _, l := range lists {
+					if strings.Contains(tgt, ":") && len(l) > 3 && !r.Thorough() {
+						continue
+					}
 					cases = append(cases, kcase{l, aead, retry, tgt})
 				}
 			}
@@ -125,15 +170,15 @@ func Run(r *ev.Run) {
 		return map[byte]echx.KeyPair{
 			// T's config is not byte-identical to what this library's own encoder would write for the same fields
 			// (maximum_name_length 200, a non-mandatory extension): HPKE info is the config AS RECEIVED
-			'T': echx.NewKeyOpt("c09-T", 42, echx.AllSuites, "public.example", 200, []byte{0x12, 0x34, 0, 2, 0xaa, 0xbb}),
+			'T': echx.NewKeyOpt("c09-T", 42, echx.AllSuites, targetPublicName, 200, []byte{0x12, 0x34, 0, 2, 0xaa, 0xbb}),
 			// S: T's key pair in a SECOND, different config with the same id (key rotation that kept the key, or a second public name)
 			'S': echx.NewKey("c09-T", 42, echx.AllSuites, "second-public.example"),
-			'A': echx.NewKey("c09-A", 42, echx.AllSuites, "public.example"),
-			'B': echx.NewKey("c09-B", 42, others, "public.example"),
-			'C': echx.NewKey("c09-C", 43, echx.AllSuites, "public.example"),
+			'A': echx.NewKey("c09-A", 42, echx.AllSuites, targetPublicName),
+			'B': echx.NewKey("c09-B", 42, others, targetPublicName),
+			'C': echx.NewKey("c09-C", 43, echx.AllSuites, targetPublicName),
 			'D': echx.NewKey("c09-D", 7, echx.AllSuites, "other-public.example"),
 			'E': echx.NewKey("c09-E", 42, echx.AllSuites, "other-public.example"),
-			'U': echx.NewKey("c09-U", 42, echx.AllSuites, "public.example"),
+			'U': echx.NewKey("c09-U", 42, echx.AllSuites, targetPublicName),
 		}
 	}
 	type refKey struct {
@@ -146,7 +191,7 @@ func Run(r *ev.Run) {
 	for _, aead := range []uint16{1, 2, 3} {
 		ks := mk(aead)
 		for _, retry := range []bool{false, true} {
-			for _, tgt := range []string{"T", "U"} {
+			for _, tgt := range []string{"T", "U", "T:sni-of-another-key", "T:retry-seq2"} {
 				for _, hasT := range []bool{false, true} {
 					var keys []ech.Key
 					if hasT {
@@ -154,7 +199,7 @@ func Run(r *ev.Run) {
 					} else {
 						keys = echx.Keys(ks['C']) // a server with keys, none relevant (outcome([]) modulo "no keys")
 					}
-					o, p := run(keys, ks[tgt[0]], aead, retry)
+					o, p := run(keys, ks[tgt[0]], aead, retry, variantOf(tgt))
 					if p != nil {
 						r.Violation("panic:reference", fmt.Sprint(p), nil)
 					}
@@ -180,7 +225,7 @@ func Run(r *ev.Run) {
 		if len(keys) == 0 {
 			keys = echx.Keys(ks['C'])[:0]
 		}
-		o, p := run(keys, ks[c.Target[0]], c.AEAD, c.Retry)
+		o, p := run(keys, ks[c.Target[0]], c.AEAD, c.Retry, variantOf(c.Target))
 		hasT := strings.Contains(c.List, "T")
 		want := refs[refKey{c.AEAD, c.Retry, c.Target, hasT}]
 		kind := "first"
@@ -188,6 +233,8 @@ func Run(r *ev.Run) {
 			kind = "retry"
 		}
 		switch {
+		case strings.HasPrefix(o, "CALLER-KEY-BYTES-MODIFIED"):
+			r.Violation("newconn-writes-into-callers-keys", "NewConn modified the Config/PrivateKey bytes of the keys it was given (they are shared with every later connection): "+o, c)
 		case p != nil:
 			r.Violation("panic:"+kind, fmt.Sprint(p), c)
 		case o != want:
@@ -197,7 +244,7 @@ func Run(r *ev.Run) {
 		// the same keys given through two WithKeys options (every split point) must behave like one list
 		if p == nil && o == want && len(keys) >= 2 && len(keys) <= 3 {
 			for split := 0; split <= len(keys); split++ {
-				o2, p2 := runSplit(keys, ks[c.Target[0]], c.AEAD, c.Retry, split)
+				o2, p2 := runSplit(keys, ks[c.Target[0]], c.AEAD, c.Retry, split, variantOf(c.Target))
 				if o2 == "CALLER-SLICE-MODIFIED" {
 					r.Violation("withkeys-writes-into-callers-slice", fmt.Sprintf("key list %q given as two sub-slices of one caller-owned array (WithKeys(pool[:%d]), WithKeys(pool[%d:])): after NewConn the caller's array has changed, so the NEXT connection configured from it holds other keys (acceptance then depends on an earlier connection's options)", c.List, split, split+1), c)
 				} else if p2 != nil || o2 != o {
